@@ -88,6 +88,7 @@ def cases(tier, seed):
     for which in ('pending', 'fresh'):
         for by in ('same-thread', 'other-thread'):
             out.append({'k': 'takeover', 'which': which, 'by': by})
+    out.append({'k': 'takeover', 'which': 'pending-second-leaves', 'by': 'same-thread'})
     for kind in ('span_method', 'capture_method', 'span_and_capture'):
         for fc in ('-1', '1'):      # 1: the only fire is spent by the first thread - the later thread opens nothing, and has nothing to complete
             out.append({'k': 'abandoned', 'kind': kind, 'fc': fc})
@@ -307,7 +308,7 @@ def takeover(ctx, desc):
     sp1, sp2 = rig.RecSpanProcessor(j1), rig.RecSpanProcessor(j2)
     first = rig.Agent(plugins=[sp1], journal=j1)
     line_x = TAKEOVER_SRC.split('\n').index('    x = helper(21)') + 1
-    if which == 'pending':
+    if which in ('pending', 'pending-second-leaves'):
         first.install(triggers_for('c15take', 'span_and_capture', 'job', '-1'))
     else:
         # (something for the first agent to follow the frames with)
@@ -335,6 +336,11 @@ def takeover(ctx, desc):
     def replace():
         first.handler.shutdown()
         a2 = second['agent'] = rig.Agent(plugins=[sp2], journal=j2)
+        if which == 'pending-second-leaves':
+            # the second agent comes and goes while job() is still running: the thread goes back to the first one, which is not done
+            a2.handler.start()
+            a2.handler.shutdown()
+            return
         a2.handler.start()
         if which == 'pending':
             a2.install([build_trigger('t2', 'c15take.py', 3, {'fire_count': '-1', 'fire_period': '0', 'snapshot': 'no_collect', 'log_msg': 'h'}, [], [])])
@@ -379,7 +385,7 @@ def takeover(ctx, desc):
     ctx.outcome(('takeover', which, tuple(s_.closed for s_ in sp1.spans), tuple(s_.closed for s_ in sp2.spans), len(first.snapshots), len(a2.snapshots) if a2 else None))
     if result.get('v') != 43 or 'exc' in result:
         ctx.violation('C15/takeover/program-disturbed', f'{label}: {result}', desc)
-    elif which == 'pending' and ([s_.closed for s_ in sp1.spans] != [1, 1] or len(first.snapshots) != 1):
+    elif which in ('pending', 'pending-second-leaves') and ([s_.closed for s_ in sp1.spans] != [1, 1] or len(first.snapshots) != 1):
         ctx.violation('C15/takeover/pending-work-of-the-stopped-agent-abandoned', f'{label}: the spans the first agent had opened on job() have close counts '
                       f'{[s_.closed for s_ in sp1.spans]}, its deferred snapshot was delivered {len(first.snapshots)} times', desc)
     elif which == 'fresh' and ([s_.closed for s_ in sp2.spans] != [1] or len(a2.snapshots) != 1):
